@@ -59,13 +59,40 @@ fn check_seq(c: &SeqCase, obs: &mut Obs) -> Verdict {
     obs.class_if(!c.is_full(), "sub-range");
     obs.class_if(swaps > 0, "compaction swap reached");
     obs.class_if(ops.iter().any(|o| matches!(o, DiffOp::Replace { .. })), "has Replace");
-    match carried_exact(&ops, c.or.0, c.nr.0) {
+    match judge_capture(c, None, &ops, obs) {
+        Verdict::Pass => {}
+        v => return v,
+    }
+    // the same for captures made under a deadline that runs out (before the start / at a later probe):
+    // what the deadline fallbacks report goes through the same clean-up and carries exact positions too
+    for k in [0u64, 1 + ((c.old.len() + c.new.len()) % 3) as u64] {
+        let ops_k = match capture(c, Some(k)) {
+            Ok(o) => o,
+            Err(p) => return Verdict::Fail(format!("capture with expiry at probe {}: {}", k, p)),
+        };
+        if ops_k != ops {
+            obs.class("capture under an expiring deadline differs from the exact one");
+        }
+        match judge_capture(c, Some(k), &ops_k, obs) {
+            Verdict::Pass => {}
+            v => return v,
+        }
+    }
+    Verdict::Pass
+}
+
+fn judge_capture(c: &SeqCase, k: Option<u64>, ops: &[DiffOp], obs: &mut Obs) -> Verdict {
+    let how = match k {
+        None => String::new(),
+        Some(k) => format!(" (deadline running out at probe {})", k),
+    };
+    match carried_exact(ops, c.or.0, c.nr.0) {
         Ok(()) => Verdict::Pass,
-        Err((true, m)) => Verdict::Fail(format!("{} mode {}: ops {:?}: {}", alg_name(c.alg), c.mode, ops, m)),
+        Err((true, m)) => Verdict::Fail(format!("{} mode {}{}: ops {:?}: {}", alg_name(c.alg), c.mode, how, ops, m)),
         Err((false, m)) => {
             // carried-index mismatch: is it the swap site?
             similar::verif::swap::set_repair(true);
-            let ops2 = capture(c, None);
+            let ops2 = capture(c, k);
             similar::verif::swap::set_repair(false);
             match ops2 {
                 Ok(ops2) => match carried_exact(&ops2, c.or.0, c.nr.0) {
@@ -74,8 +101,8 @@ fn check_seq(c: &SeqCase, obs: &mut Obs) -> Verdict {
                         Verdict::Known(D7)
                     }
                     Err((_, m2)) => Verdict::Fail(format!(
-                        "{} mode {}: ops {:?}: {} — persists with the swap repair on ({})",
-                        alg_name(c.alg), c.mode, ops, m, m2
+                        "{} mode {}{}: ops {:?}: {} — persists with the swap repair on ({})",
+                        alg_name(c.alg), c.mode, how, ops, m, m2
                     )),
                 },
                 Err(p) => Verdict::Fail(format!("capture with swap repair: {}", p)),
@@ -222,7 +249,7 @@ impl Prop for C11 {
     type Case = Case;
     const ID: &'static str = "C11";
     fn rule() -> String {
-        "cases = Seq(algorithm, old, new, ranges, capture entry point) without deadline | Lines(old, new, algorithm, radius): exact positions of TextDiff::ops and the consumer view (hunk headers); enumeration of all pairs over {0,1} plus proptest mixture biased to repeats next to edits. Oracle: both indices of every op == range start + items consumed before it on that side; hunk headers computed by the library from first/last op == headers computed from the true extents. A carried-index / header mismatch that disappears when the cfg(similar_verif) swap repair is on is counted as known finding D7 and the search continues; any other mismatch is a violation. Non-trivial = op list contains a pure Delete or Insert (Seq) / at least 2 ops (Lines); distinct = distinct serialized case.".into()
+        "cases = Seq(algorithm, old, new, ranges, capture entry point): the capture without deadline and the captures made under a (virtual) deadline that runs out at probe 0 and at probe 1..3 | Lines(old, new, algorithm, radius): exact positions of TextDiff::ops and the consumer view (hunk headers); enumeration of all pairs over {0,1} plus proptest mixture biased to repeats next to edits. Oracle: both indices of every op == range start + items consumed before it on that side; hunk headers computed by the library from first/last op == headers computed from the true extents. A carried-index / header mismatch that disappears when the cfg(similar_verif) swap repair is on is counted as known finding D7 and the search continues; any other mismatch is a violation. Non-trivial = op list contains a pure Delete or Insert (Seq) / at least 2 ops (Lines); distinct = distinct serialized case.".into()
     }
     fn assumptions() -> Vec<String> {
         vec![
